@@ -21,8 +21,10 @@ POOL = ['s1', 's2', 's3', 'x', 'y', 'q', 'first', 'zz', 'unknown', 'o2', 'o9', '
         'p', 'o1', 'd1', 'e1', 'q1', 'yy', 'nope', 's1_L', 'o9_L', '1', 'u']
 
 
-def _close(a, b):
-    return np.allclose(np.asarray(a, float), np.asarray(b, float), rtol=1e-12, atol=0, equal_nan=True)
+def _close(a, b, scale=0.0):
+    """equal up to summation order: relative 1e-12, plus 1e-12 of the magnitude that was summed (a sum of
+    values that cancel is only determined up to the rounding of its terms)"""
+    return np.allclose(np.asarray(a, float), np.asarray(b, float), rtol=1e-12, atol=1e-12 * scale, equal_nan=True)
 
 
 def coherent(t, m, report):
@@ -144,9 +146,10 @@ def coherent(t, m, report):
         dens = t.get_table_density()
         if not _close(dens, nzD / float(N * Mm)):
             bad = ('density', 'get_table_density()=%r, matrix says %r' % (dens, nzD / float(N * Mm)))
-    if not _close(t.sum('whole'), D.sum()) or \
-            not (_close(t.sum('sample'), D.sum(axis=0)) and len(t.sum('sample')) == Mm) or \
-            not (_close(t.sum('observation'), D.sum(axis=1)) and len(t.sum('observation')) == N):
+    mag = float(np.abs(D).sum()) if D.size else 0.0
+    if not _close(t.sum('whole'), D.sum(), mag) or \
+            not (_close(t.sum('sample'), D.sum(axis=0), mag) and len(t.sum('sample')) == Mm) or \
+            not (_close(t.sum('observation'), D.sum(axis=1), mag) and len(t.sum('observation')) == N):
         bad = ('sum', 'sum(whole/sample/observation)=%r/%r/%r, matrix says %r/%r/%r'
                % (t.sum('whole'), list(t.sum('sample')), list(t.sum('observation')),
                   D.sum(), list(D.sum(axis=0)), list(D.sum(axis=1))))
